@@ -116,6 +116,7 @@ def plan(tier, seed):
     nf = len(flat_exprs())
     sh += [['flat', lo, hi] for lo, hi in chunks(nf, 256)]
     sh += [['print3', oi] for oi in range(6)]
+    sh += [['printnode', oi] for oi in range(6)]
     sh.append(['errors'])
     if tier == 'thorough':
         for oi in range(24):
@@ -246,6 +247,46 @@ def run_shard(shard, tier, seed, acc):
                               [int(x) for x in tt.of_node(r2[1].root)])
         acc.sample({'order': order, 'printed': str(OBDD('(a & b) | c', order))})
         return
+    if kind == 'printnode':
+        # diagrams built node by node through the BDDNode constructor, the variable names being strings
+        # computed at run time (equal to, but not the same objects as, the names a parser produces);
+        # printing and parsing back must give the very same diagram
+        from pyModelChecking.BDD import BDDNode
+        V = ['x%d' % i for i in (1, 2, 3)]
+        tt = TT(V)
+        order = list(list(itertools.permutations(V))[shard[1]])
+
+        def mk(t, k):
+            if all(t):
+                return BDDNode(1)
+            if not any(t):
+                return BDDNode(0)
+            v = order[k]
+            name = 'x%d' % int(v[1:])          # a new str object each time
+            return BDDNode(name, mk(tt.cofactor(t, v, 0), k + 1), mk(tt.cofactor(t, v, 1), k + 1))
+        for t in tt.all_functions():
+            nontriv = 1 if (any(t) and not all(t)) else 0
+            case = {'vars': V, 'order': order, 'f': [int(x) for x in t], 'built': 'BDDNode constructor'}
+            r0 = call(lambda: OBDD(mk(t, 0), ['x%d' % int(v[1:]) for v in order]))
+            acc.ev(2, 2 * nontriv)
+            if r0[0] != 'ok' or tt.of_node(r0[1].root) != t:
+                acc.violation('node-built-diagram-wrong', case, None, r0[1:] if r0[0] != 'ok' else None)
+                continue
+            o = r0[1]
+            s_root, s_full = str(o.root), str(o)
+            r1 = call(OBDD, s_root, list(order))
+            r2 = call(OBDD, s_full)
+            if r1[0] != 'ok':
+                acc.violation('print-root-exception', dict(case, printed=s_root), None, r1[1:])
+            elif not eq(r1[1], o) or tt.of_node(r1[1].root) != t:
+                acc.violation('print-root-differs', dict(case, printed=s_root), None,
+                              [int(x) for x in tt.of_node(r1[1].root)])
+            if r2[0] != 'ok':
+                acc.violation('print-full-exception', dict(case, printed=s_full), None, r2[1:])
+            elif not eq(r2[1], o) or tt.of_node(r2[1].root) != t:
+                acc.violation('print-full-differs', dict(case, printed=s_full), None,
+                              [int(x) for x in tt.of_node(r2[1].root)])
+        return
     if kind == 'errors':
         for s in SYNTAX_ERRORS:
             for order in (['a', 'b', 'c', 'f'], ['b', 'a']):
@@ -266,9 +307,16 @@ def run_shard(shard, tier, seed, acc):
 def replay(art):
     c = art['case']
     kind = art['kind']
-    if kind.startswith('print'):
+    if kind.startswith('print') or kind == 'node-built-diagram-wrong':
         tt = TT(c['vars'])
         t = tuple(bool(x) for x in c['f'])
+        if c.get('built'):
+            from ..runner import Acc
+            acc = Acc()
+            oi = [list(x) for x in itertools.permutations(c['vars'])].index(list(c['order']))
+            run_shard(['printnode', oi], 'quick', 0, acc)
+            hits = [v for v in acc.d['violations'] if v['case'].get('f') == c['f']]
+            return {'violates': bool(hits), 'detail': hits[:1]}
         o = OBDD(tt.dnf(t), list(c['order']))
         if 'root' in kind:
             r = call(OBDD, str(o.root), list(c['order']))
